@@ -202,6 +202,39 @@ def prov(rep, cfg, facts):
     return n_sites
 
 
+def valid_decode(rep, cfg):
+    """every point the decoder hands out lies on the curve (and has T = XY/Z): polynomial identities in s on the success flow, modulo the
+    CONTRACT of the square-root routine on that flow (it reported `square`: v^2 * den = num) and S^2 = 1 for the sign selection.
+    Decided on the code's own coordinates; membership in the image 2E of the decaf group beyond the curve equation is the Decaf theorem."""
+    from . import poly as P_
+    p = cfg.p_decode(rep)
+    if p is None:
+        return
+    out = cfg.run(p)
+    errs, oks, other = C.split_result(rep, cfg, out)
+    key = "VALID/%s/decode" % cfg.name
+    if len(oks) != 1 or C.coords(oks[0][1]) is None:
+        rep.ob(key, False, "decode must have exactly one success flow returning coordinates", where=cfg.where(p))
+        return
+    pc, val = oks[0]
+    X, Y, Z, T = C.coords(val)
+    sqs = [c for c in pc if c.op == "isqrt_sq"]
+    for c in sqs:
+        X, Y, Z, T = (Tm.assume(t_, c, True) for t_ in (X, Y, Z, T))
+    NV = P_.Norm(K.Q)
+    mul, sub, add = (lambda u, v: mk("mul", u, v)), (lambda u, v: mk("sub", u, v)), (lambda u, v: mk("add", u, v))
+    a_, d_ = mk("felem", "fq", K.A_COEFF % K.Q), mk("felem", "fq", K.D_COEFF)
+    eqs = {"a*X^2 + Y^2 = Z^2 + d*T^2": sub(add(mul(a_, mul(X, X)), mul(Y, Y)), add(mul(Z, Z), mul(d_, mul(T, T)))), "X*Y = Z*T": sub(mul(X, Y), mul(Z, T))}
+    bad = []
+    for nm, ob in eqs.items():
+        res, probs = P_.reduce_modulo_isqrt(NV, NV.poly(ob), True, 0)
+        if res or probs:
+            bad.append("%s: remainder %s %s" % (nm, NV.show(res, 3), probs[:1]))
+    rep.ob(key, not bad and len(sqs) == 1 and not out.unmodelled,
+           "every successfully decoded point must satisfy the curve equation and T*Z = X*Y for all s, given the square-root contract on the success flow; %s" % ("; ".join(bad) or "ok"),
+           where=cfg.where(p), sample={"obligation": key, "identities": 2})
+
+
 def is_group_formula_site(cfg, fn):
     """cfg M: add / double / neg / conditional_select build an Element from coordinates of existing elements (C04 decides the formulas)"""
     return bool(re.search(r"<min_curve::element::Element as core::ops::(Add|Neg)>::|min_curve::element::Element::double$|ConditionallySelectable>::conditional_select$", fn))
@@ -267,9 +300,9 @@ def run(rep, facts, tier):
         "at construction sites inside the crate. Every body whose resolved HIR contains such a site is interpreted; the wrapped point's term must have "
         "provenance in VALID (decode / Elligator output, validated constant, group ops, representation changes and selections over VALID, inner point of an "
         "existing element, element-wise maps over valid sequences). CONST: published constants are valid group elements. Typestate, not sampling.")
-    rep.rules += ["PROV", "CONST", "WIT"]
+    rep.rules += ["PROV", "CONST", "WIT", "SELECT", "VALID (decode and Elligator outputs lie on the curve, modulo the square-root contract)"]
     rep.trusted += ["rustc privacy checking (fields are not constructible downstream)", "arkworks group operations preserve the subgroup", "summary table"]
-    rep.assumptions += ["decode and Elligator outputs are valid group elements (Decaf theorems; conformance is C01/C07)",
+    rep.assumptions += ["decode and Elligator outputs lie on the curve with T = XY/Z: DECIDED here (VALID rules, modulo the square-root contract); that they lie in the image 2E of the decaf group is the Decaf theorem (conformance to the specified maps is C01/C07)",
                         "r1cs R1CSVar::value construction sites expose what the constraint system admitted and are classified under C14"]
     counts = {}
     for name, f in facts.items():
@@ -277,6 +310,7 @@ def run(rep, facts, tier):
             continue
         cfg = Cfg(f)
         counts[name] = prov(rep, cfg, f)
+        valid_decode(rep, cfg)
         from . import groupops
         groupops.check_select(rep, cfg)     # PROV admits the selection site as "coordinates of existing elements": they must be matching ones
         entry_values(rep, cfg)
@@ -284,6 +318,11 @@ def run(rep, facts, tier):
         from . import c01
         c01.isqrt_zero_cases(rep, cfg)      # decode hands out a point only if ISQRT(1, 0) reports "not square" (s = -1 has den = 0)
         c17.curve_constants(rep, f, name)
+    # the other coordinate-level source of elements: the Elligator map's output lies on the curve (C07's VALID instances, both builds)
+    from . import c07
+    from .common import import_rules
+    nv = import_rules(rep, c07, {k: v for k, v in facts.items() if k != "R"}, tier, "MAP", pred=lambda k: k.startswith("VALID/"))
+    rep.floor("elligator_validity_instances", nv, 2)
     rep.analysed["construction_sites"] = counts
     if "A" in counts:
         rep.floor("construction_sites_A", counts["A"], 16)
